@@ -244,7 +244,9 @@ def check_flatten(s, rule):
             wants.append(nzr.canon(s.ref(br, A, bindr)))
         if is_int:
             # a one-element tuple is unrolled statically, so `batch_axes < 0` is a static case of the path
-            neg = [v for t, v in pr.conds if t == ("cmp", "Lt", ("param", "batch_axes"), ("const", 0))]
+            lt0 = nzr.canon(s.ref(br, "batch_axes < 0", bindr))
+            ge0 = nzr.canon(s.ref(br, "batch_axes >= 0", bindr))
+            neg = [v if nzr.canon(t) == lt0 else (not v) for t, v in pr.conds if nzr.canon(t) in (lt0, ge0)]
             if neg:
                 wants = [nzr.canon(s.ref(br, "(batch_axes + len(self.shape),)" if neg[0] else "(batch_axes,)", bindr))]
         got = nzr.canon(pr.ret)
